@@ -173,6 +173,11 @@ def run_verus_unit(u, repo, bdir):
         res["wall_s"] = time.time() - t0
         return res
     contract = u.get("contract", [])
+    other_props = []
+    if u.get("contract_by_property"):
+        cbp = u["contract_by_property"]
+        contract = cbp.get(u.get("_for_property", u["property"]), [])
+        other_props = [c for p_, cs in cbp.items() if p_ != u.get("_for_property", u["property"]) for c in cs if c not in contract]
     rlimit_fns = {d["fn"] for d in diags if "rlimit" in d["message"].lower() or "resource limit" in d["message"].lower()}
     missing = [c for c in contract if c not in fb and c not in details and not any(k.endswith("::" + c) for k in list(fb) + list(details))]
     if missing:
@@ -199,6 +204,8 @@ def run_verus_unit(u, repo, bdir):
     for k, f in fb.items():
         if k in seen or k == "vx_canary":
             continue
+        if k in other_props or k.split("::")[-1] in other_props:
+            continue  # a contract of another property served by the same unit: decided by that property's check
         if k.endswith("::clone") or k.endswith("::eq") or k.endswith("::hash"):
             continue  # derive-generated
         st = "discharged" if f["ok"] else "undecided"
@@ -319,7 +326,7 @@ def main(argv):
     if a.replay:
         import replay
         return replay.replay(a.replay, a.repo)
-    units = [u for u in cfg["unit"] if u["property"] == prop or prop in u.get("also", [])]
+    units = [dict(u, _for_property=prop) for u in cfg["unit"] if u["property"] == prop or prop in u.get("also", [])]
     if a.tier == "quick":
         units = [u for u in units if u.get("tier", "quick") == "quick"]
     if a.unit:
